@@ -45,6 +45,9 @@ var sortSpecs = [][]gen.SortCol{
 	{{Path: []string{"k2"}, NullsFirst: true}, {Path: []string{"k"}, Desc: true}},
 	{{Path: []string{"f"}}},
 	{{Path: []string{"pay"}, Desc: true}, {Path: []string{"k"}}},
+	// a required sorting column that comes after the repeated column in the schema
+	{{Path: []string{"sum"}}},
+	{{Path: []string{"k2"}, NullsFirst: true}, {Path: []string{"sum"}, Desc: true}},
 }
 
 func genSortSpec(t *tape.Tape) []gen.SortCol { return sortSpecs[t.Draw(len(sortSpecs))] }
@@ -55,7 +58,8 @@ func keyedSum(k gen.Keyed) uint64 {
 	if k.K2 != nil {
 		k2 = "=" + *k.K2
 	}
-	fmt.Fprintf(h, "%d|%s|%x|%d|%d|%s|%v", k.K, k2, math.Float64bits(k.F), k.Src, k.Seq, k.Pay, k.Tags)
+	// Seq is not covered: it is assigned after the input is sorted, and Sum is itself a sorting key
+	fmt.Fprintf(h, "%d|%s|%x|%d|%s|%v", k.K, k2, math.Float64bits(k.F), k.Src, k.Pay, k.Tags)
 	return h.Sum64()
 }
 
@@ -73,6 +77,7 @@ func makeKeyed(r *tape.Rng, key int64, src int32) gen.Keyed {
 	for n := r.Intn(4); n > 0; n-- {
 		k.Tags = append(k.Tags, int32(r.Intn(100)))
 	}
+	k.Sum = keyedSum(k)
 	return k
 }
 
@@ -134,7 +139,6 @@ func keyedInput(seed uint64, pattern string, i, k, n int, cmp func(parquet.Row, 
 	for j, ix := range idx {
 		sorted[j] = vals[ix]
 		sorted[j].Seq = int64(j)
-		sorted[j].Sum = keyedSum(sorted[j])
 		rows[j] = keyedSchema.Deconstruct(nil, sorted[j])
 	}
 	return sorted, rows
